@@ -31,6 +31,10 @@ MODULES = {
     'C13': ['contracts.c13'],
     'C10': ['contracts.c10'],
     'C11': ['contracts.c11'],
+    'C08': ['contracts.pit_layers'],
+    'C01': ['contracts.pit_layers'],
+    'C04': ['contracts.pit_layers'],
+    'C12': ['contracts.pit_layers'],
 }
 
 EXTRACTION_DROPS = ['docstrings', 'type annotations', 'typing.cast (identity)', 'with torch.no_grad() (body kept)',
